@@ -355,9 +355,19 @@ def expectString (side : Side) (s : St) : Bool × Bytes × St :=
   let (ok', s2) := expect ok s1
   (ok', v, s2)
 
-/-- Decoder.ExpectAString: Quoted, else Literal, else ExpectAtom (each tried on what the previous
-    one left, with the sticky error) -/
+/-- Decoder.ExpectAString: Quoted, else Literal, else — unless an error is recorded, i.e. the
+    opening brace of a malformed literal has been consumed — ExpectAtom (each tried on what the
+    previous one left, with the sticky error) -/
 def expectAString (side : Side) (s : St) : Bool × Bytes × St :=
+  let (ok, v, s1) := decQuoted s
+  if ok then (true, v, s1) else
+  let (ok2, v2, s2) := decLiteral side s1
+  if ok2 then (true, v2, s2) else
+  if s2.err.isSome then (false, [], s2) else expectAtom s2
+
+/-- ExpectAString as shipped: after a malformed literal header (`{` consumed, error recorded) it
+    still went on to read an atom from what followed and reported success -/
+def Legacy.expectAString (side : Side) (s : St) : Bool × Bytes × St :=
   let (ok, v, s1) := decQuoted s
   if ok then (true, v, s1) else
   let (ok2, v2, s2) := decLiteral side s1
@@ -530,6 +540,7 @@ def discardValue (side : Side) : Nat → Nat → St → Bool × St
   | fuel+1, depth, s =>
     let (isStr, _, s1) := decString side s
     if isStr then (true, s1) else
+    if s1.err.isSome then (false, s1) else      -- malformed literal
     let item : St → Option Err × List Unit × St := fun st =>
       let (ok, st1) := discardValue side fuel (depth + 1) st
       if ok then (none, [], st1) else (st1.err, [], st1)
